@@ -130,6 +130,8 @@ class Explorer:
         self.query_timeout_ms = query_timeout_ms
         self.logic = logic
         self.refine_timeout_ms = 4000
+        self.max_cex = 6
+        self.stopped_early = False
         self.stats = Stats()
         self.stack = []
         self.pos = 0
@@ -172,6 +174,9 @@ class Explorer:
             except Abort:
                 self.stats.dropped += 1
             self.stats.paths += 1
+            if len(self.cexs) >= self.max_cex:
+                self.stopped_early = True       # enough counterexamples for this case
+                return False
             if self.stats.paths >= self.max_paths:
                 raise Inconclusive(f"path budget {self.max_paths} exhausted")
             st = self.stack
